@@ -100,6 +100,8 @@ impl Region {
             let abs_offset = region_start + offset;
             let slice = unsafe { std::slice::from_raw_parts_mut(ptr.add(abs_offset), value_len) };
             write_fn(&value, slice);
+            #[cfg(feature = "verif_hooks")]
+            crate::verif::io(|| crate::verif::IoEvent::Write { file: crate::verif::FileId::Data, offset: abs_offset, data: slice.to_vec() });
             dirty_start = dirty_start.min(offset);
             dirty_end = dirty_end.max(end_offset);
         }
@@ -358,6 +360,8 @@ impl Region {
         let data_flushed = if let Some((min, max)) = dirty_bounds {
             let region_start = self.meta().start();
             let mmap = db.mmap();
+            #[cfg(feature = "verif_hooks")]
+            crate::verif::io(|| crate::verif::IoEvent::FlushAsync { file: crate::verif::FileId::Data, offset: region_start + min, len: max - min });
             if let Err(e) = mmap.flush_async_range(region_start + min, max - min) {
                 drop(mmap);
                 self.restore_dirty_bounds(min, max);
@@ -375,6 +379,8 @@ impl Region {
         // but before data sync, metadata could reference unwritten data.
         if data_flushed || meta_flushed {
             db.file().sync_data()?;
+            #[cfg(feature = "verif_hooks")]
+            crate::verif::io(|| crate::verif::IoEvent::Sync { file: crate::verif::FileId::Data });
             regions.sync_data()?;
         }
 
